@@ -1,0 +1,42 @@
+//go:build verif
+
+package webpmeta
+
+// Contracts for the verification machinery in /verif (vcgo). Comment-only.
+// r is a ghost byte stream read from offset old(r.pos); in extractMetadata the stream is
+// read from its first byte, so offsets are those of the RIFF container:
+//   0 'RIFF'  4 file size  8 'WEBP'  12 first chunk FourCC  16 chunk length (LE)  20 payload
+
+//@ func skip
+//@   modular
+//@   loop 1 invariant [C09,C18,C05,C06] progress: i <= length && r.pos == old(r.pos) + int(i) && r.pos <= r.len
+//@   loop 1 decreases int(length) - int(i)
+//@   ensures [C05,C06,C09,C18] ok: old(r.avail) >= int(length) ==> result == nil && r.pos == old(r.pos) + int(length)
+//@   ensures [C05,C06,C09,C18] short: old(r.avail) < int(length) ==> result != nil
+
+//@ func readChunkHeader
+//@   modular
+//@   ensures [C05,C06,C08,C09,C18] ok: old(r.avail) >= 8 ==> err == nil && r.pos == old(r.pos) + 8 && ch.Length == le32(r, old(r.pos)+4) && ch.ChunkType[0] == u8(r, old(r.pos)) && ch.ChunkType[1] == u8(r, old(r.pos)+1) && ch.ChunkType[2] == u8(r, old(r.pos)+2) && ch.ChunkType[3] == u8(r, old(r.pos)+3)
+//@   ensures [C05,C06,C08,C09,C18] short: old(r.avail) < 8 ==> err != nil
+
+//@ func verifySignature
+//@   modular
+//@   ensures [C05,C08,C18] ok: old(r.avail) >= 12 && be32(r, old(r.pos)) == 0x52494646 && be32(r, old(r.pos)+8) == 0x57454250 ==> result == nil && r.pos == old(r.pos) + 12
+//@   ensures [C05,C19] rejects: old(r.avail) >= 12 && (be32(r, old(r.pos)) != 0x52494646 || be32(r, old(r.pos)+8) != 0x57454250) ==> result != nil
+//@   ensures [C05,C09] short: old(r.avail) < 12 ==> result != nil
+
+//@ func extractMetadata
+//@   recovers
+//@   alloc_bound r.len
+//@   ensures [C05,C08] vp8x-dimensions: r.len >= 30 && be32(r, 0) == 0x52494646 && be32(r, 8) == 0x57454250 && be32(r, 12) == 0x56503858 && le32(r, 16) == 10 ==> err == nil && md != nil && md.PixelWidth == le24(r, 24) + 1 && md.PixelHeight == le24(r, 27) + 1 && md.BitsPerComponent == 8 && md.Format == "WebP"
+//@   ensures [C05,C08] vp8l-dimensions: r.len >= 25 && be32(r, 0) == 0x52494646 && be32(r, 8) == 0x57454250 && be32(r, 12) == 0x5650384C && u8(r, 20) == 0x2f ==> err == nil && md != nil && md.PixelWidth == (le32(r, 21) & 0x3FFF) + 1 && md.PixelHeight == ((le32(r, 21) >> 14) & 0x3FFF) + 1 && md.BitsPerComponent == 8 && md.Format == "WebP"
+//@   ensures [C05,C08] vp8-dimensions: r.len >= 30 && be32(r, 0) == 0x52494646 && be32(r, 8) == 0x57454250 && be32(r, 12) == 0x56503820 && u8(r, 23) == 0x9d && u8(r, 24) == 0x01 && u8(r, 25) == 0x2a ==> err == nil && md != nil && md.PixelWidth == uint32(le16(r, 26) & 0x3FFF) && md.PixelHeight == uint32(le16(r, 28) & 0x3FFF) && md.BitsPerComponent == 8 && md.Format == "WebP"
+//@   ensures [C06] no-profile-without-flag: err == nil && be32(r, 12) == 0x56503858 && u8(r, 20) & 0x20 == 0 ==> md.iccProfileData == nil && md.iccProfileErr == nil
+//@   ensures [C06] no-profile-simple: err == nil && be32(r, 12) != 0x56503858 ==> md.iccProfileData == nil && md.iccProfileErr == nil
+//@   ensures [C06,C08] profile-bytes: err == nil && be32(r, 12) == 0x56503858 && u8(r, 20) & 0x20 != 0 && r.len >= 38 && be32(r, 30) == 0x49434350 && r.len - 38 >= int(le32(r, 34)) ==> md.iccProfileErr == nil && len(md.iccProfileData) == int(le32(r, 34)) && (forall k int :: 0 <= k && k < int(le32(r, 34)) ==> md.iccProfileData[k] == u8(r, 38 + k))
+//@   ensures [C06] profile-damaged: err == nil && be32(r, 12) == 0x56503858 && u8(r, 20) & 0x20 != 0 && (r.len < 38 || be32(r, 30) != 0x49434350 || r.len - 38 < int(le32(r, 34))) ==> md.iccProfileData == nil && md.iccProfileErr != nil
+//@   ensures [C18] consumed-vp8x: err == nil && be32(r, 12) == 0x56503858 && u8(r, 20) & 0x20 == 0 ==> r.pos == 30
+//@   ensures [C18] consumed-vp8x-icc: err == nil && be32(r, 12) == 0x56503858 && u8(r, 20) & 0x20 != 0 && md.iccProfileErr == nil ==> r.pos == 38 + int(le32(r, 34))
+//@   ensures [C18] consumed-vp8l: err == nil && be32(r, 12) == 0x5650384C ==> r.pos == 25
+//@   ensures [C18] consumed-vp8: err == nil && be32(r, 12) == 0x56503820 ==> r.pos == 30
+//@   ensures [C07,C09] error-means-no-metadata: err != nil ==> md == nil
